@@ -1160,6 +1160,21 @@ class ManifestRecursiveLoader:
             manifest_stack.append((mpath, mrpath, m))
         directory_ids = {}
 
+        # the Manifests above @path are not met by the walk below:
+        # refresh the MANIFEST entries for them here, so that a stale
+        # entry for one of them does not survive the update
+        for cmpath, cmrpath, cm in manifest_stack:
+            if path_starts_with(cmrpath, path):
+                continue
+            for ompath, odir, om in self._iter_manifests_for_path(cmpath):
+                for e in om.entries:
+                    if (e.tag == 'MANIFEST'
+                            and os.path.join(odir, e.path) == cmpath):
+                        if update_entry_for_path(
+                                os.path.join(self.root_directory, cmpath),
+                                e, expected_dev=self.manifest_device):
+                            self.updated_manifests.add(ompath)
+
         it = os.walk(os.path.normpath(
                          os.path.join(self.root_directory, path)),
                      onerror=throw_exception,
